@@ -435,6 +435,7 @@ func refreshSet(f *field, t0, t1 int64) map[string]bool {
 
 type problem struct {
 	Row, Col, Class, Want, Got, Before, Why string
+	NewRow                                  bool // the row is one the operation inserts
 }
 
 func (p problem) String() string {
